@@ -1,84 +1,69 @@
 /-
-  C05, first half — the writer's output is the canonical encoding: the call sequence `opsOf v`
-  of a well-formed value, written into a large enough buffer, leaves exactly `encode v` there.
-  (`opsOf` is defined in Lemmas/WriterLemmas; the spec encoder `encode` in Spec/Value.)
+  C05 — writer output is canonical and round-trips.
+  For ANY well-formed value `v` the well-formed write sequence `opsOf v` (balanced begin/end, a name
+  before each value inside objects, names ascending) produces exactly `encode v`, the canonical Binson
+  encoding (shortest 1/2/4/8-byte two's-complement forms for integers and lengths, doubles as their
+  8 IEEE-754 bytes little-endian, text and bytes verbatim); the output is accepted by
+  `binson_parser_verify` and `binson_writer_verify` within their depth limits, and decodes to exactly the
+  values written. (Proofs: Lemmas/WriterLemmas, Lemmas/WriterProps, Lemmas/Walk*.)
 -/
-import Binson.Lemmas.WriterLemmas
-import Binson.Lemmas.VerifyValid
-import Binson.Model.Transcribe
-import Binson.Props.C04
+import Binson.Lemmas.WriterProps
+import Binson.Lemmas.Walk
 namespace Binson
 
-/-- `_int_pack_size` produces the spec's minimal-width two's complement encoding -/
-theorem packInt_eq_encInt (base : UInt8) (v : Int) (h : int64Min ≤ v ∧ v ≤ int64Max) :
+/-- `_int_pack_size` produces the spec's minimal-width two's complement encoding (integers, and with tags 0x14/0x18 lengths) -/
+theorem c05_packInt_eq_encInt (base : UInt8) (v : Int) (h : int64Min ≤ v ∧ v ≤ int64Max) :
     packInt base v = encInt base v :=
-  packInt_encInt base v h
+  packInt_eq_encInt base v h
 
 /-- the `_write` payloads of the call sequence of `v`, concatenated, are `encode v` -/
-theorem pieces_opsOf (v : Value) (h : wfValue v = true) : (allPieces (opsOf v)).flatten = encode v :=
-  flatten_pieces_opsOf v h
+theorem c05_pieces_opsOf (v : Value) (h : wfValue v = true) : (allPieces (opsOf v)).flatten = encode v :=
+  pieces_opsOf v h
 
 /-- every call in the call sequence of a well-formed value has valid arguments -/
-theorem opsOf_valid (v : Value) (h : wfValue v = true) : ∀ op ∈ opsOf v, op.Valid :=
-  valid_opsOf v h
+theorem c05_opsOf_valid (v : Value) (h : wfValue v = true) : ∀ op ∈ opsOf v, op.Valid :=
+  opsOf_valid v h
 
-/-- C05: writing a well-formed value into a large enough buffer produces exactly `encode v` -/
-theorem write_value_encode (v : Value) (h : wfValue v = true) (m0 : Array UInt8)
+/-- writing a well-formed value into a large enough buffer produces exactly `encode v` -/
+theorem c05_write_value_encode (v : Value) (h : wfValue v = true) (m0 : Array UInt8)
     (hlen : (encode v).length ≤ m0.size) (hsz : m0.size < 2 ^ 63) :
     let w := (Writer.init m0 m0.size).1.run (opsOf v)
-    w.err = .none ∧ w.used = (encode v).length ∧ w.mem.toList.take (encode v).length = encode v := by
-  intro w
-  have hfl := pieces_opsOf v h
-  have htot : totalLen (allPieces (opsOf v)) = (encode v).length := by
-    rw [totalLen_eq_flatten, hfl]
-  obtain ⟨_, _, h3, h4, h5, h6⟩ :=
-    writer_run (opsOf v) m0.size m0 rfl (opsOf_valid v h) (by omega) hsz
-  have hall : fittedPieces m0.size 0 (allPieces (opsOf v)) = encode v := by
-    rw [fittedPieces_all _ _ _ (by omega), hfl]
-  have h3' : w.used = _ := h3
-  have h6' : w.mem.toList = _ := h6
-  refine ⟨?_, by rw [h3', htot], ?_⟩
-  · rcases h5 with h | h
-    · exact h
-    · have := h4.mp h; omega
-  · rw [h6', hall, List.take_left']
-    rfl
+    w.err = .none ∧ w.used = (encode v).length ∧ w.mem.toList.take (encode v).length = encode v :=
+  write_value_encode v h m0 hlen hsz
 
-/-- not vacuous: `{"a":[1,-300]}` is well-formed and is written as its encoding -/
-example :
-    let v := Value.obj (.cons [0x61] (.arr (.cons (.int 1) (.cons (.int (-300)) .nil))) .nil)
-    wfValue v = true ∧ encode v = [0x40, 0x14, 0x01, 0x61, 0x42, 0x10, 0x01, 0x11, 0xD4, 0xFE, 0x43, 0x41] := by
-  exact ⟨by decide, by decide⟩
-
-/-- and the model writer, run on it over a 14-byte buffer, leaves that encoding and the 2 old bytes -/
-example :
-    let v := Value.obj (.cons [0x61] (.arr (.cons (.int 1) (.cons (.int (-300)) .nil))) .nil)
-    let m0 : Array UInt8 := Array.replicate 14 7
-    ((Writer.init m0 m0.size).1.run (opsOf v)).mem.toList = encode v ++ [7, 7] := by decide
-
-/-- C05, second half: the canonical encoding of a well-formed object document is accepted by
-    `binson_parser_verify` (within the depth limit), from any allocated parser object -/
-theorem written_verifies (g : Parser) (ha : Alloc g) (hmd : g.maxDepth ≤ 255) (v : Value)
+/-- the canonical encoding of a well-formed object document is accepted by `binson_parser_verify`
+    (within the depth limit), from any allocated parser object -/
+theorem c05_written_verifies (g : Parser) (ha : Alloc g) (hmd : g.maxDepth ≤ 255) (v : Value)
     (hwf : wfDoc .object g.maxDepth v = true) (hsz : (encode v).length < 2 ^ 63) :
     (init g (encode v).toArray 1).2 = true ∧ (verify (init g (encode v).toArray 1).1).2.1 = true :=
-  let h := verify_wellformed g ha hmd .object v hwf hsz; ⟨h.1, h.2.2.1⟩
+  written_verifies g ha hmd v hwf hsz
 
 /-- ... and by `binson_writer_verify` (a depth-10 parser over the bytes written so far) -/
-theorem writer_verify_ok (v : Value) (hwf : wfDoc .object 10 v = true) (m0 : Array UInt8)
+theorem c05_writer_verify_ok (v : Value) (hwf : wfDoc .object 10 v = true) (m0 : Array UInt8)
     (hlen : (encode v).length ≤ m0.size) (hsz : m0.size < 2 ^ 63) :
-    writerVerify ((Writer.init m0 m0.size).1.run (opsOf v)) = true := by
-  have hwv : wfValue v = true := by
+    writerVerify ((Writer.init m0 m0.size).1.run (opsOf v)) = true :=
+  writer_verify_ok v hwf m0 hlen hsz
+
+/-- ... and decodes to exactly the values written: the bytes the writer left, handed to the full
+    traversal program (next / get_name / typed getters / go_into / leave), give back exactly `fs` -/
+theorem c05_written_decodes (fs : Fields) (hwf : wfDoc .object 10 (.obj fs) = true) (m0 : Array UInt8)
+    (hlen : (encode (.obj fs)).length ≤ m0.size) (hsz : m0.size < 2 ^ 63) :
+    let w := (Writer.init m0 m0.size).1.run (opsOf (.obj fs))
+    cppDeserialize (w.mem.extract 0 w.used) = .ok fs := by
+  intro w
+  have hwv : wfValue (.obj fs) = true := by
     unfold wfDoc at hwf; simp only [Bool.and_eq_true] at hwf; exact hwf.1.1
-  obtain ⟨_, hu, ht⟩ := write_value_encode v hwv m0 hlen hsz
-  unfold writerVerify
-  have hb : ((Writer.init m0 m0.size).1.run (opsOf v)).mem.extract 0 ((Writer.init m0 m0.size).1.run (opsOf v)).used = (encode v).toArray := by
+  obtain ⟨_, hu, ht⟩ := write_value_encode (.obj fs) hwv m0 hlen hsz
+  have hb : w.mem.extract 0 w.used = (encode (.obj fs)).toArray := by
     apply Array.ext'
     rw [Array.toList_extract, hu]
     simpa using ht
-  simp only [hb]
-  have h := verify_wellformed (garbageParser 10) ⟨rfl, by decide, rfl, rfl⟩ (by decide) .object v hwf (by omega)
-  have h1 : (init (garbageParser 10) (encode v).toArray 1).2 = true := h.1
-  have h2 : (verify (init (garbageParser 10) (encode v).toArray 1).1).2.1 = true := h.2.2.1
-  simp [h1, h2]
+  rw [hb]
+  exact cppDes_valid fs hwf (by omega)
+
+/-- the encoding is unique: two well-formed values with the same bytes are the same value -/
+theorem c05_encoding_unique (v v' : Value) (hw : wfValue v = true) (hw' : wfValue v' = true)
+    (h : encode v = encode v') : v = v' :=
+  (encode_prefix_free v v' [] [] hw hw' (by simpa using h)).1
 
 end Binson
